@@ -1,3 +1,189 @@
-import GambitV.Model.SigFile
+import GambitV.Lemmas.SigFile
+import GambitV.Props.C12
+
+/-!
+# C19 — an interrupted write never leaves a loadable signature file
+
+`writerTrace` is the sequence of storage-library calls made by `dump_signatures_hdf5`
+(`h5.File(path, 'w')`, the attributes, the datasets, the chunk writes, and the `close` at the end of
+the `with` block); `crashImage` is the file found on disk if the process dies after exactly `n` of
+those calls, under snapshot semantics (the on-disk image becomes a valid HDF5 file holding its
+objects only at `flush`/`close`).  The writer never flushes, so the only point at which the file
+becomes loadable is the final `close` — and then it loads as exactly the collection written.
+
+Helper lemmas live in `Lemmas/SigFile.lean`; the round trip is C12's `read_write`.  Core Lean only.
+-/
 namespace GambitV.C19
+open GambitV
+
+/-! ### 1–2. Shape of the writer's trace -/
+
+/-- 1. The writer never calls `flush`. -/
+theorem writerTrace_no_flush (fast : Bool) (nsigs : Nat) : WOp.flush ∉ writerTrace fast nsigs := by
+  rw [writerTrace_eq, List.mem_append]
+  rintro (h | h)
+  · exact flush_not_mem_writerBody fast nsigs h
+  · simp at h
+
+/-- 2. `close` is the last call, and no earlier call is a `close`: it occurs exactly once. -/
+theorem writerTrace_close_last (fast : Bool) (nsigs : Nat) :
+    (writerTrace fast nsigs).getLast? = some .close ∧
+      (∀ n, n < (writerTrace fast nsigs).length - 1 → (writerTrace fast nsigs)[n]? ≠ some .close) := by
+  refine ⟨by rw [writerTrace_eq]; simp, ?_⟩
+  intro n hn
+  rw [writerTrace_length] at hn
+  have hn' : n < (writerBody fast nsigs).length := by omega
+  rw [writerTrace_eq, List.getElem?_append_left hn', List.getElem?_eq_getElem hn']
+  intro h
+  injection h with h
+  exact close_not_mem_writerBody fast nsigs (h ▸ List.getElem_mem hn')
+
+/-- 2b. Counted: exactly one `close`. -/
+theorem writerTrace_count_close (fast : Bool) (nsigs : Nat) :
+    (writerTrace fast nsigs).count .close = 1 := by
+  rw [writerTrace_eq, List.count_append, List.count_eq_zero.2 (close_not_mem_writerBody fast nsigs)]
+  rfl
+
+/-- 2c. The first call creates (truncates) the file. -/
+theorem writerTrace_head (fast : Bool) (nsigs : Nat) :
+    (writerTrace fast nsigs).head? = some .createFile := rfl
+
+/-- number of storage-library calls of a write -/
+theorem writerTrace_length_eq (fast : Bool) (nsigs : Nat) :
+    (writerTrace fast nsigs).length = if fast then 14 else 16 + nsigs := by
+  cases fast <;> simp [writerTrace, attrNames] <;> omega
+
+/-! ### 3. A crash before the last call completes -/
+
+/-- What is on disk after a crash before `close` completes: nothing if not even the file was
+created, otherwise a file that the library cannot open. -/
+theorem crashImage_before_close (fast : Bool) (nsigs : Nat) (full : SigStore) (n : Nat)
+    (hn : n < (writerTrace fast nsigs).length) :
+    crashImage (writerTrace fast nsigs) full n = if n = 0 then .notHdf5 else .unopenable := by
+  have hc : ((writerTrace fast nsigs).take n).contains WOp.close = false := by
+    rw [List.contains_eq_mem]
+    exact decide_eq_false (close_not_mem_take fast nsigs n hn)
+  have hf : ((writerTrace fast nsigs).take n).contains WOp.flush = false := by
+    rw [List.contains_eq_mem]
+    exact decide_eq_false (flush_not_mem_take fast nsigs n hn)
+  unfold crashImage
+  simp only [hc, hf, Bool.false_eq_true, if_false]
+  cases n with
+  | zero => simp
+  | succ n =>
+    have htr : writerTrace fast nsigs = .createFile :: (writerTrace fast nsigs).tail := rfl
+    have : ((writerTrace fast nsigs).take (n + 1)).contains WOp.createFile = true := by
+      rw [List.contains_eq_mem, htr, List.take_succ_cons]
+      exact decide_eq_true (List.mem_cons_self ..)
+    rw [if_pos this, if_neg (Nat.succ_ne_zero n)]
+
+/-- 3. A writer killed before its last call completes never leaves a loadable file. -/
+theorem crash_never_loads (fast : Bool) (nsigs : Nat) (full : SigStore) (n : Nat)
+    (hn : n < (writerTrace fast nsigs).length) (c : SigCollection) :
+    loadFile (crashImage (writerTrace fast nsigs) full n) ≠ .loaded c := by
+  rw [crashImage_before_close fast nsigs full n hn]
+  by_cases h0 : n = 0
+  · rw [if_pos h0]; intro h; cases h
+  · rw [if_neg h0]; intro h; cases h
+
+/-- 3b. More precisely: the loader raises — the dedicated error if the file was never created,
+another exception (the library cannot open the file) otherwise. -/
+theorem crash_outcome (fast : Bool) (nsigs : Nat) (full : SigStore) (n : Nat)
+    (hn : n < (writerTrace fast nsigs).length) :
+    loadFile (crashImage (writerTrace fast nsigs) full n) =
+      if n = 0 then .sigFileError else .otherError := by
+  rw [crashImage_before_close fast nsigs full n hn]
+  by_cases h0 : n = 0
+  · rw [if_pos h0, if_pos h0]; rfl
+  · rw [if_neg h0, if_neg h0]; rfl
+
+/-! ### 4–5. A completed write -/
+
+theorem crashImage_complete (fast : Bool) (nsigs : Nat) (full : SigStore) (n : Nat)
+    (hn : (writerTrace fast nsigs).length ≤ n) :
+    crashImage (writerTrace fast nsigs) full n = .hdf5 full := by
+  unfold crashImage
+  have : ((writerTrace fast nsigs).take n).contains WOp.close = true := by
+    rw [List.take_of_length_le hn, writerTrace_eq]
+    simp
+  simp only [this, if_true]
+
+/-- 4. Once every call has completed, the file loads as exactly the collection written. -/
+theorem complete_loads_exact (fast : Bool) (c : SigCollection) (n : Nat)
+    (hn : (writerTrace fast c.sigs.length).length ≤ n) :
+    loadFile (crashImage (writerTrace fast c.sigs.length) (writeSigs fast c) n) = .loaded c := by
+  rw [crashImage_complete fast c.sigs.length _ n hn]
+  exact C12.read_write fast c
+
+/-- 5. If the file loads, the write ran to completion. -/
+theorem loads_implies_complete (fast : Bool) (nsigs : Nat) (full : SigStore) (n : Nat)
+    (c : SigCollection)
+    (h : loadFile (crashImage (writerTrace fast nsigs) full n) = .loaded c) :
+    (writerTrace fast nsigs).length ≤ n := by
+  apply Nat.le_of_not_lt
+  intro hn
+  exact crash_never_loads fast nsigs full n hn c h
+
+/-- 4 + 5: a file that loads after a write of `c` holds `c` — never something else. -/
+theorem loads_only_exact (fast : Bool) (c c' : SigCollection) (n : Nat)
+    (h : loadFile (crashImage (writerTrace fast c.sigs.length) (writeSigs fast c) n) = .loaded c') :
+    c' = c := by
+  have hn := loads_implies_complete fast c.sigs.length _ n c' h
+  rw [complete_loads_exact fast c n hn] at h
+  injection h with h
+  exact h.symm
+
+/-! ### 6. Contrast: a hypothetical writer that flushes early
+
+In this conservative model a trace with an early `flush` still maps to `.unopenable` until `close`:
+the model cannot exhibit a "flushed partial file" (a valid HDF5 file holding only some of the
+attributes/datasets).  That behaviour is outside what is proved here; it is what the correspondence
+run samples (killing a real writer).  `writerTrace_no_flush` is the reason it does not arise for
+the writer as written. -/
+
+section Examples
+
+private def flushy : List WOp :=
+  [.createFile, .setAttr "x", .flush, .createDataset "ids", .close]
+
+private def c2 : SigCollection :=
+  { k := 11, pre := [0, 3, 2], metaAttrs := [some "id", none, none, none, none, none],
+    ids := ["a", "b"], sigs := [[3, 9, 20], []], dtypeBytes := 8 }
+
+example : crashImage flushy (writeSigs true c2) 4 = .unopenable := by decide
+example : crashImage flushy (writeSigs true c2) 2 = .unopenable := by decide
+example : crashImage flushy (writeSigs true c2) 0 = .notHdf5 := by decide
+example : crashImage flushy (writeSigs true c2) 5 = .hdf5 (writeSigs true c2) := by decide
+
+/-! ### 7. Non-vacuity -/
+
+example : writerTrace true 2 =
+    [.createFile, .setAttr "gambit_signatures_version", .setAttr "kmerspec_k", .setAttr "kmerspec_prefix",
+     .setAttr "id", .setAttr "name", .setAttr "id_attr", .setAttr "version", .setAttr "description",
+     .setAttr "extra", .createDataset "ids", .createDataset "values", .createDataset "bounds", .close] := by
+  decide
+
+example : writerTrace false 2 =
+    [.createFile, .setAttr "gambit_signatures_version", .setAttr "kmerspec_k", .setAttr "kmerspec_prefix",
+     .setAttr "id", .setAttr "name", .setAttr "id_attr", .setAttr "version", .setAttr "description",
+     .setAttr "extra", .createDataset "ids", .createDataset "bounds", .writeChunk 0, .writeChunk 1,
+     .createDataset "values", .writeChunk 2, .writeChunk 3, .close] := by
+  decide
+
+example : (writerTrace true 2).length = 14 ∧ (writerTrace false 2).length = 18 := by decide
+
+-- crash after 5 calls: not loaded (the library cannot open the file)
+example : loadFile (crashImage (writerTrace true 2) (writeSigs true c2) 5) = .otherError := by decide
+example : loadFile (crashImage (writerTrace false 2) (writeSigs false c2) 5) = .otherError := by decide
+-- crash during the very last call (`close` not completed)
+example : loadFile (crashImage (writerTrace true 2) (writeSigs true c2) 13) = .otherError := by decide
+example : loadFile (crashImage (writerTrace false 2) (writeSigs false c2) 17) = .otherError := by decide
+-- crash before the file is created
+example : loadFile (crashImage (writerTrace true 2) (writeSigs true c2) 0) = .sigFileError := by decide
+-- completed writes
+example : loadFile (crashImage (writerTrace true 2) (writeSigs true c2) 14) = .loaded c2 := by decide
+example : loadFile (crashImage (writerTrace false 2) (writeSigs false c2) 18) = .loaded c2 := by decide
+
+end Examples
+
 end GambitV.C19
